@@ -163,6 +163,18 @@ def _job(job):
     return acc
 
 
+def _huge_job(job):
+    """documents far beyond the bounds (680 rows, 137 measures, the same cells dozens of times): listing, filters, unique, frequencies, comments"""
+    from .. import docspace as D
+    h, seq, sd, pre = job
+    acc = Acc()
+    _PREV.clear()
+    m = D.materialise((h, seq, sd), pre=pre)
+    check_doc(acc, h, D.hist_of(m), pre, all_filters=True)
+    acc.nontriv(('huge', tuple(h), sd))
+    return acc
+
+
 # comment layouts: every sequence of <= 3 of these lines before the header, inside the score and after the terminators
 CLINES = ['!!!OTL: a', '!!!OTL@@DE: b', '!!!OTL: c', '!!!OTLX: d', '!!!O: e', '!!', '!!!', '!!!: nokey', '!!!COM:nospace', '!! spaced', '!!plain', '!!!COM: Bach',
           '!!!COM: Bach', '!!!key with space: v', '!!!!four']
@@ -222,6 +234,8 @@ def run(ctx):
             check_doc(a, h, hist, p)
         ctx.merge(a)
         jobs += [(h, pr, rem, seed, 5, p) for pr, rem in js]
+    from .. import docspace as D
+    ctx.pmap(_huge_job, [(h, s, sd, p) for (h, s, sd), p in zip(D.huge_docs(seed + 7), ((), PRE, PRE))], chunksize=1)
     ctx.pmap(_job, jobs, chunksize=1)
     cd = 2 if quick else 3
     nseq = sum(len(CLINES) ** n for n in range(cd + 1))
